@@ -128,7 +128,7 @@ def handle (j : Json) : R Json := do
     -- a history: the stored JSON is regenerated under each threshold in turn; after a discard the
     -- module runs afresh (`detect` on the record's codons)
     let gc ← decOf (← fld j "gc")
-    let all ← listOf (fun c => do return ((← asInt (← idx c 0)), (← asInt (← idx c 1)))) (← fld j "all_codons")
+    let all ← listOf locOfJson (← fld j "all_codons")
     let steps ← listOf (fun s => do
       return ((← decOf (← fld s "threshold")), (strF s "record_id").toOption.getD ctx.recordId)) (← fld j "steps")
     let mut cur := input
@@ -144,7 +144,7 @@ def handle (j : Json) : R Json := do
         let refOk := x.codons == Spec.ttaReference gc opt all
         outs := outs ++ [jObj [("outcome", .str (outcomeName out)), ("ran", toJson ran),
           ("json", jToWire x.toJson), ("reference_ok", toJson refOk), ("may_reuse", toJson (Spec.ttaMayReuse cur)),
-          ("features", jArr (x.features.map fun f => jArr [toJson f.1, toJson f.2.1, toJson f.2.2]))]]
+          ("features", jArr (x.features.map locJ))]]
         cur := x.toJson
       | none =>
         outs := outs ++ [jObj [("outcome", .str (outcomeName out))]]
